@@ -9,7 +9,7 @@
 From Coq Require Import ZArith List Bool Reals Lra Lia.
 From Coquelicot Require Import Coquelicot.
 From MJV Require Import Lib.Num Lib.NumR Model.ConstraintUpdate Model.ConstraintUpdateSpec
-                        Model.Solver Model.SolverSpec Proof.SolverProof.
+                        Model.Solver Model.SolverSpec Proof.SolverProof Proof.SolverRowsProof.
 Import ListNotations.
 Open Scope R_scope.
 
@@ -50,6 +50,24 @@ Theorem C10_scalar_rows_optimal :
          objective n m M J a0 aref (sep_cost m (fun r => rk_cost (rows r))) a -> eqn n b a).
 Proof. exact scalar_rows_optimal. Qed.
 Print Assumptions C10_scalar_rows_optimal.
+
+(* The same for the cost and force FUNCTIONS of the C12 model of mj_constraintUpdate_impl itself (cu_cost_fn /
+   cu_force_fn = cost and efc_force returned by constraint_update on the residual list), for every row list
+   without elliptic blocks whose rows satisfy the relations mj_makeImpedance establishes (scalar_rows_ok):
+   the row loop's cost is the sum of the row costs and its force vector the row forces (Proof/SolverRowsProof.v). *)
+Theorem C10_constraint_update_optimal :
+  forall (n : nat) (M J : mat) (a0 aref : vec) (ne nf : Z) (con : list (@contact R)) (rows : list (@rowdesc R)),
+    symmetric n M -> posdef n M -> scalar_rows_ok ne nf 0 rows ->
+    forall a : vec,
+      eqn n (mulMV n M (vsub a a0))
+            (mulMTV (length rows) J (cu_force_fn ne nf con rows (vsub (mulMV n J a) aref))) ->
+      forall b : vec,
+        objective n (length rows) M J a0 aref (cu_cost_fn ne nf con rows) a <=
+        objective n (length rows) M J a0 aref (cu_cost_fn ne nf con rows) b /\
+        (objective n (length rows) M J a0 aref (cu_cost_fn ne nf con rows) b <=
+         objective n (length rows) M J a0 aref (cu_cost_fn ne nf con rows) a -> eqn n b a).
+Proof. exact constraint_update_optimal. Qed.
+Print Assumptions C10_constraint_update_optimal.
 
 (* The exit certificate of mj_solPrimal ("cost(qacc) - cost* <= 0.5 * grad'*M^-1*grad"): with w = M^-1 grad
    (Mgrad of the CG branch) the cost at a exceeds the cost at ANY other point by at most 1/2 grad.w.
